@@ -159,21 +159,67 @@ func genCompat(r *rand.Rand, t core.Tier) any {
 	return in
 }
 
+// snapAll is a canonical rendering of a whole requirement set (every key with the snapshot of its requirement)
+func snapAll(R scheduling.Requirements) string {
+	ks := make([]string, 0, len(R))
+	for k := range R {
+		ks = append(ks, k)
+	}
+	sort.Strings(ks)
+	var sb strings.Builder
+	for _, k := range ks {
+		b, _ := json.Marshal(rg.SnapOf(R[k]))
+		fmt.Fprintf(&sb, "%s=%s;", k, b)
+	}
+	return sb.String()
+}
+
 func implCompat(raw json.RawMessage) (any, error) {
 	var in CompatIn
 	if err := json.Unmarshal(raw, &in); err != nil {
 		return nil, err
 	}
 	A, B := buildReqs(in.A), buildReqs(in.B)
-	var err error
-	if in.AllowWellKnown {
-		err = A.Compatible(B, scheduling.AllowUndefinedWellKnownLabels)
-	} else {
-		err = A.Compatible(B)
+	compat := func() (bool, bool) {
+		if in.AllowWellKnown {
+			return A.Compatible(B, scheduling.AllowUndefinedWellKnownLabels) == nil, A.IsCompatible(B, scheduling.AllowUndefinedWellKnownLabels)
+		}
+		return A.Compatible(B) == nil, A.IsCompatible(B)
 	}
-	return map[string]any{"compatible": err == nil, "intersects": A.Intersects(B) == nil}, nil
+	c, isC := compat()
+	x := A.Intersects(B) == nil
+	// the observers must not change the sets they read (nor the answers that follow): every accessor is called on every key
+	// of either side and on a key neither side defines
+	sa, sb := snapAll(A), snapAll(B)
+	ks := []string{"verif/undefined-key"}
+	for _, l := range [][]KeyExprs{in.A, in.B} {
+		for _, ke := range l {
+			ks = append(ks, ke.Key)
+		}
+	}
+	for _, R := range []scheduling.Requirements{A, B} {
+		for _, k := range ks {
+			q := R.Get(k)
+			_, _, _, _, _ = q.Len(), q.Operator(), q.Values(), q.Any(), q.String()
+			R.Has(k)
+		}
+		_, _, _, _ = R.Keys(), R.Values(), R.String(), R.NodeSelectorRequirements()
+		_ = R.HasMinValues()
+	}
+	readsPure := snapAll(A) == sa && snapAll(B) == sb
+	c2, isC2 := compat()
+	x2 := A.Intersects(B) == nil
+	// the combinators must not change their operands: A1 is a copy of A made the way the scheduler copies requirement sets
+	// (the *Requirement objects are shared), then B is added to it
+	sa, sb = snapAll(A), snapAll(B)
+	A1 := scheduling.NewRequirements(A.Values()...)
+	A1.Add(B.Values()...)
+	B1 := scheduling.NewRequirements(B.Values()...)
+	B1.Add(A.Values()...)
+	operandsKept := snapAll(A) == sa && snapAll(B) == sb
+	return map[string]any{"compatible": c, "intersects": x, "isCompatible": isC, "readsPure": readsPure, "compatibleAfterReads": c2,
+		"isCompatibleAfterReads": isC2, "intersectsAfterReads": x2, "operandsKept": operandsKept, "sumCommutes": snapAll(A1) == snapAll(B1)}, nil
 }
-
 
 // ---------- c12.valuemap ----------
 
@@ -491,7 +537,7 @@ func Ops() []*core.Op {
 		},
 		{
 			Name: "c12.compat",
-			Doc:  "Requirements.Compatible / Intersects on random requirement sets over custom, well-known, restricted and aliased keys, with and without AllowUndefinedWellKnownLabels",
+			Doc:  "Requirements.Compatible / IsCompatible / Intersects on random requirement sets over custom, well-known, restricted and aliased keys, with and without AllowUndefinedWellKnownLabels; asked again after every accessor (Get/Has/Keys/Values/String/NodeSelectorRequirements, defined and undefined keys) has been called: reads must not change the sets or the answers; Add on a NewRequirements(Values()...) copy must not change its operands and A+B = B+A",
 			N:    func(t core.Tier) int { return map[core.Tier]int{core.Quick: 4000, core.Thorough: 80000}[t] },
 			Gen:  genCompat,
 			Impl: implCompat,
